@@ -7,6 +7,7 @@ import r_loop
 import r_guard
 import r_lock
 import r_forms
+import project
 import witness
 
 
@@ -35,6 +36,43 @@ def c05(facts, tier):
     n_loops, n_walk = r_loop.run(facts, rep, scope_files=files)
     rep.floor("R-LOOP", "while/loop statements analysed", n_loops, 60 if files else 600)
     rep.floor("R-LOOP(adv)", "level-walking loops (condition on parms_id of a written object)", n_walk, 3)
+    # refusals (pre-return mode)
+    fam = r_forms.families(facts)
+    rows = []
+    CT, PT = "text::Ciphertext", "text::Plaintext"
+    for stem, ty, cls, why in (
+            ("mod_switch_to", CT, "not_upward", "a request to move upward in the chain is refused"),
+            ("mod_switch_plain_to", PT, "not_upward", "a request to move a plaintext upward is refused"),
+            ("mod_switch_to_next", CT, "not_last", "a request to move past the last level is refused"),
+            ("mod_switch_to_next_plain", PT, "not_last", "a request to move a plaintext past the last level is refused"),
+            ("rescale_to_next", CT, "not_last", "a request to rescale past the last level is refused"),
+            ("rescale_to", CT, "not_last", "a request to rescale past the last level is refused")):
+        for name, p in sorted(fam.get(stem, {}).items()):
+            ops = _ops(facts, p, ty)
+            if ops:
+                rows.append((p, cls, (ops[0],), why))
+    eng = r_guard.GuardEngine(facts)
+    rep.rule("R-GUARD(level)", "no normally-returning path of the entry lacks a refusing branch on the operand's "
+             "level against the chain (chain_index comparison / last level / next_context_data)")
+    r_guard.check_return_facts(facts, rep, eng, rows, "R-GUARD(level)")
+    rep.floor("R-GUARD(level)", "level refusal rows", len(rows), 18)
+    rep.rule("R-GUARD(scheme)", "on the BFV and BGV projections the rescale entry points never return normally")
+    n = 0
+    for scheme in ("BFV", "BGV"):
+        pf = project.ProjFacts(facts, scheme)
+        e2 = r_guard.GuardEngine(pf)
+        for stem in ("rescale_to_next", "rescale_to"):
+            for name, p in sorted(fam.get(stem, {}).items()):
+                n += 1
+                sm = e2.summary(p)
+                key = "%s/%s" % (p, scheme)
+                if not sm.normal_return:
+                    rep.ok("R-GUARD(scheme)", key, "every path of %s under %s ends in a refusal" % (p, scheme), facts.loc(p),
+                           sample={"entry": p, "scheme": scheme})
+                else:
+                    rep.violation("R-GUARD(scheme)", key, "%s can return normally under %s: rescaling outside CKKS is "
+                                  "computed instead of refused" % (p, scheme), facts.loc(p))
+    rep.floor("R-GUARD(scheme)", "rescale entry x scheme rows", n, 12)
     return rep
 
 
@@ -104,7 +142,63 @@ def c17(facts, tier):
     return rep
 
 
+def _ops(facts, p, ty):
+    return [name for _, name, t in r_guard.operand_params(facts, p) if r_guard.strip_ty(t) == ty]
+
+
+def c03_rows(facts):
+    """(entry, class, operands, why) rows for the refusal clauses of C03, generated from the public families."""
+    fam = r_forms.families(facts)
+    rows = []
+    CT, PT = "text::Ciphertext", "text::Plaintext"
+    for stem in ("add", "sub", "multiply"):
+        for name, p in sorted(fam.get(stem, {}).items()):
+            cts = _ops(facts, p, CT)
+            if len(cts) >= 2:
+                rows.append((p, "same_level", (cts[0], cts[1]), "ciphertexts of different levels are refused"))
+                if stem in ("add", "sub"):
+                    rows.append((p, "same_scale", (cts[0], cts[1]), "operands whose scales disagree are refused"))
+                else:
+                    rows.append((p, "scale_bound", (cts[0],), "a product whose scale no longer fits the modulus is refused"))
+    for stem in ("square",):
+        for name, p in sorted(fam.get(stem, {}).items()):
+            cts = _ops(facts, p, CT)
+            if cts:
+                rows.append((p, "scale_bound", (cts[0],), "a square whose scale no longer fits the modulus is refused"))
+    for stem in ("add_plain", "sub_plain"):
+        for name, p in sorted(fam.get(stem, {}).items()):
+            cts, pts = _ops(facts, p, CT), _ops(facts, p, PT)
+            if cts and pts:
+                rows.append((p, "same_scale", (cts[0], pts[0]), "a plaintext whose scale disagrees is refused"))
+    for stem in ("multiply_plain",):
+        for name, p in sorted(fam.get(stem, {}).items()):
+            cts = _ops(facts, p, CT)
+            if cts:
+                rows.append((p, "scale_bound", (cts[0],), "a product whose scale no longer fits the modulus is refused"))
+    return rows
+
+
+def c03(facts, tier):
+    rep = Report("C03", tier, facts,
+                 "R-GUARD, pre-return mode on the CKKS projection of the program (SchemeType matches and tests "
+                 "specialised to CKKS): for every form of add/sub/multiply/square/±plain/multiply_plain, no "
+                 "normally-returning path lacks a refusing branch on (a) the levels of both ciphertext operands, "
+                 "(b) the scales of both operands, (c) the resulting scale against the modulus size.",
+                 "the numerical error bound of CKKS evaluation; tolerance semantics of the scale comparison; that "
+                 "the recorded scale is arithmetically the product/quotient (R-METAFLOW decides where it comes from).")
+    pf = project.ProjFacts(facts, "CKKS")
+    eng = r_guard.GuardEngine(pf)
+    rows = c03_rows(facts)
+    rep.rule("R-GUARD(ckks)", "on the CKKS projection, every normally-returning path of the entry passes a refusing "
+             "branch whose condition evaluates the class's accessor(s) on the named operand(s)")
+    r_guard.check_return_facts(pf, rep, eng, rows, "R-GUARD(ckks)")
+    rep.floor("R-GUARD(ckks)", "refusal rows (entry x clause)", len(rows), 30)
+    rep.extra["guard_engine"] = eng.stats
+    return rep
+
+
 CHECKS = {
+    "C03": c03,
     "C17": c17,
     "C06": c06,
     "C05": c05,
